@@ -154,6 +154,7 @@ class Run:
         self.flag = {}            # id(real object) -> "ctor" | "copy": how a mutable QuantumCircuit got is_immutable set
         self.keep = []            # keeps every object alive so that id() stays unique
         self.fails, self.trace = [], []
+        self.caller_dicts = []
         self.cmf = CachedMeasurementFactory(bitwise_commuting_pauli_measurement)
         self.est = create_qulacs_vector_estimator() if HAVE_QULACS else None
         self.stats = {"snapshots": 0, "derived": 0, "lookups": 0, "estimates": 0, "steps": 0}
@@ -355,12 +356,28 @@ class Run:
             if h.kind == "LM":
                 fn = self.lm_angle(h, d)
                 getattr(h.obj, f"add_Parametric{base}_gate")(*args, fn)
+                self.caller_dicts.append(fn)   # the caller keeps (and may later reuse) the dict it passed
                 desc = f"{h.name()}.add_Parametric{base}_gate{args} angle=" + str(
                     {("CONST" if p == CONST else "#%d" % self.pid(p)): c for p, c in fn.items()})
             else:
                 getattr(h.obj, f"add_Parametric{base}_gate")(*args)
                 desc = f"{h.name()}.add_Parametric{base}_gate{args}"
             T = [h]
+        elif op == "dict_reuse":
+            # the caller mutates an angle dict it passed to add_Parametric*_gate earlier: no circuit, copy, combination or
+            # state may change
+            if not self.caller_dicts:
+                return
+            fn = self.caller_dicts[d["a"] % len(self.caller_dicts)]
+            k = d["fz"] % 3
+            if k == 0:
+                fn[CONST] = fn.get(CONST, 0.0) + 0.45
+            elif k == 1 and fn:
+                key = list(fn)[d["i"] % len(fn)]
+                fn[key] = fn[key] * 2.0 + 0.1
+            else:
+                fn.clear()
+            desc = "caller mutates an angle dict it passed earlier"
         elif op == "add_params":
             h = self.pick(d["a"], ("LM",))
             if h is None:
@@ -508,9 +525,18 @@ class Run:
             h = self.pick(d["a"], ("OP",))
             if h is None:
                 return
-            k = d["fz"] % 6
+            k = d["fz"] % 7
             x = d["terms"][0]
-            if k == 0:
+            if k == 6:
+                # a coefficient moves between -1 and -2: hash(-1) == hash(-2) in CPython (int, float and complex), so
+                # a cache key derived from hashes instead of the content itself cannot tell the two operators apart
+                if not len(h.obj):
+                    return
+                lbl = sorted(h.obj, key=str)[d["i"] % len(h.obj)]
+                new = -2.0 if h.obj[lbl] == -1 else -1.0
+                h.obj[lbl] = new
+                desc = f"{h.name()}[{lbl}] = {new}"
+            elif k == 0:
                 h.obj.add_term(label_of(x, n), cf(x))
                 desc = f"{h.name()}.add_term({label_of(x, n)}, {cf(x)})"
             elif k == 1:
@@ -652,7 +678,7 @@ def rnd_term(rng):
             "coef": rng.choice([[1.0, 0], [-1.0, 0], [0.5, 0], [2.0, 0], [0, 1.0], [0.25, -0.5], [-0.5, 0], [1.0, 0]])}
 
 
-WEIGHTS = [("new_qc", 2), ("new_up", 1.5), ("new_lm", 1.5), ("add_gate", 9), ("add_pgate", 4), ("add_params", 2),
+WEIGHTS = [("new_qc", 2), ("new_up", 1.5), ("new_lm", 1.5), ("add_gate", 9), ("add_pgate", 4), ("dict_reuse", 1.5), ("add_params", 2),
            ("freeze", 5), ("mcopy", 4), ("plus", 4), ("extend", 2), ("iadd", 1.5), ("bind", 3), ("ictor", 3.5),
            ("state", 4), ("state_op", 3), ("new_op", 1.5), ("op_mut", 3), ("op_new_from", 1), ("op_lookup", 3.5),
            ("estimate", 3)]
